@@ -139,14 +139,31 @@ pub fn run_case(line: &str) -> String {
         }
         "wr" => {
             let mode = mode_of(t[1]);
-            let budgets: Vec<usize> = t[2].split(',').map(|b| b.parse().unwrap()).collect();
+            // `B<cap>:<budgets>`: the writer is wrapped in a buffering writer of that capacity; what has reached the
+            // inner writer when write_framed returns is what the peer can see
+            let (cap, spec) = match t[2].strip_prefix('B').and_then(|r| r.split_once(':')) {
+                Some((c, rest)) => (Some(c.parse::<usize>().unwrap()), rest),
+                None => (None, t[2]),
+            };
+            let budgets: Vec<usize> = spec.split(',').map(|b| b.parse().unwrap()).collect();
             let data = parse_data(t[3]);
             let fr = MessageFramer::new(mode);
-            let mut w = ThrottledWriter { budgets, i: 0, out: Vec::new() };
-            let r = rt.block_on(async { fr.write_framed(&mut w, &data).await });
+            let w = ThrottledWriter { budgets, i: 0, out: Vec::new() };
             let one = fr.frame_message(&data);
+            let (r, seen) = match cap {
+                None => {
+                    let mut w = w;
+                    let r = rt.block_on(async { fr.write_framed(&mut w, &data).await });
+                    (r, w.out)
+                }
+                Some(c) => {
+                    let mut bw = tokio::io::BufWriter::with_capacity(c, w);
+                    let r = rt.block_on(async { fr.write_framed(&mut bw, &data).await });
+                    (r, bw.get_ref().out.clone())
+                }
+            };
             match r {
-                Ok(()) => format!("stream:{} oneshot:{}", show(&w.out), show(&one)),
+                Ok(()) => format!("stream:{} oneshot:{}", show(&seen), show(&one)),
                 Err(e) => format!("werr:{:?} oneshot:{}", e.kind(), show(&one)),
             }
         }
